@@ -708,10 +708,16 @@ impl Engine for Cursor {
         let mut case = Case { bytes, from_bit, to_bit, steps: Vec::new(), pad_bytes };
         let mut sim = Sim::new(&case);
         // every step renders the whole input several times: keep megabyte cases short
-        let n = if pad_bytes > 0 { 3 + rng.below(7) } else { 3 + rng.below(48) };
+        // rarely: more than a thousand inputs suspended at once (depth thresholds), then the usual
+        let deep = if pad_bytes == 0 && rng.chance(1, 15000) { 1020 + rng.below(20) } else { 0 };
+        let n = if pad_bytes > 0 { 3 + rng.below(7) } else { deep + 3 + rng.below(if deep > 0 { 12 } else { 48 }) };
         let mut st = Stats::new();
-        for _ in 0..n {
-            let step = gen_step(rng, &sim);
+        for k in 0..n {
+            let step = if k < deep {
+                Step { args: vec![(*rng.pick(&["|7|", "|ff 00 12|", "|x.x|"])).to_string()], word: "open-bitstr".into(), stackfail: None, in_meta: false }
+            } else {
+                gen_step(rng, &sim)
+            };
             let r = guard(|| sim.apply(&step, &mut st));
             case.steps.push(step);
             match r {
